@@ -167,6 +167,17 @@ def readersAgree : List String → Option Bool
 def handleSpz (op : String) (args : List String) : Option String :=
   match op, args with
   | "c15.spz.read", [hex] => (hexBytes? hex).map spzReadAnswer
+  | "c15.spz.validate", [magic, ver, np, deg] => do
+      -- Header.Validate alone, on the boundaries of every guard
+      let h : Spz.Header := ⟨← magic.toNat?, ← ver.toNat?, ← np.toNat?, ← deg.toNat?, 0, 0, 0⟩
+      pure (if h.valid then "ok" else "err")
+  | "c15.spz.errkind", [hex] => do
+      -- the KIND of rejection of a stream (header-only streams: short read vs invalid header)
+      let bs ← hexBytes? hex
+      pure (match Spz.readRaw bs with
+        | .ok _ => "ok"
+        | .error .short => "short"
+        | .error .invalid => "invalid")
   | "c15.holds.spz_dequant", ver :: np :: deg :: fb :: rest => do
       let h : Spz.Header := ⟨Spz.magicNum, ← ver.toNat?, ← np.toNat?, ← deg.toNat?, ← fb.toNat?, 0, 0⟩
       let recHex := rest.take h.numPoints
